@@ -2,6 +2,8 @@
 
 use crate::adversary::{Hostile, Rewriter};
 use crate::gen::*;
+use crate::gen_b::*;
+use crate::oracle_conn::*;
 use crate::oracle_rate::RfcOracle;
 use crate::oracle_transport::*;
 use crate::oracle_twin::{twin_run, AckForger};
@@ -75,6 +77,22 @@ fn c01_gen_small(seed: u64, run: u64, thorough: bool) -> Plan {
     let sc = c01_sc(&mut r, thorough, false, true);
     world_a_general("C01", "a_small_windows", seed, run, &sc, false)
 }
+fn c01_gen_b(seed: u64, run: u64, thorough: bool) -> Plan {
+    let mut r = Rng::keyed(&[seed, run, 0xb01]);
+    let horizon = r.range(8, if thorough { 60 } else { 30 }) * 1_000_000;
+    let sc = BScenario {
+        n_clients: r.range(1, 3) as usize,
+        packets: r.range(30, if thorough { 800 } else { 300 }),
+        horizon_us: horizon,
+        fault_until_us: horizon,
+        heal: false,
+        allow_flips: true,
+        near_wrap: run % 2 == 0,
+        // a connection that legitimately timed out simply ends the run's transport checks
+        active_timeout_ms: 20_000,
+    };
+    world_b_general("C01", "b_mixed", seed, run, &sc)
+}
 fn c01_oracles(plan: &Plan) -> Vec<Box<dyn Oracle>> {
     with_states(vec![Box::new(TransportOracle::new("C01", TransportClauses { order: true, ..Default::default() }, plan))])
 }
@@ -89,6 +107,8 @@ pub fn c01() -> CheckDef {
                 what: "same, initial frame and packet ids within two windows of the 2^32 / 2^20 wrap-around and enough traffic to cross it" },
             Family { name: "a_small_windows", world: "A", weight: 3, gen: c01_gen_small, oracles: c01_oracles, adversary: None, keep_workload: false, custom: None,
                 what: "same, window sizes 1..64 so that windows fill and resynchronise constantly" },
+            Family { name: "b_mixed", world: "B", weight: 2, gen: c01_gen_b, oracles: c01_oracles, adversary: None, keep_workload: false, custom: None,
+                what: "real Client/Server over the simulated socket, 1-3 clients, both directions, default windows, handshake nonces steered to within 6000 of the 2^32 / 2^20 wrap-around in half of the runs, drop/dup/reorder/flips" },
         ],
         panic_is_violation: no_panics,
         hang_is_violation: false,
@@ -893,6 +913,137 @@ pub fn c15() -> CheckDef {
 }
 
 
+
+// ------------------------------------------------------------------------------------------ C07
+
+fn c07_gen_faulty(seed: u64, run: u64, thorough: bool) -> Plan {
+    world_b_handshake("C07", "b_handshake_faults", seed, run, thorough, false)
+}
+fn c07_gen_clean(seed: u64, run: u64, thorough: bool) -> Plan {
+    world_b_handshake("C07", "b_handshake_clean", seed, run, thorough, true)
+}
+fn c07_oracles(plan: &Plan) -> Vec<Box<dyn Oracle>> {
+    with_states(vec![
+        Box::new(HandshakeOracle::new("C07")),
+        // established connections are not reset or replaced: delivery stays in order, exactly once
+        Box::new(TransportOracle::new("C07", TransportClauses { order: true, ..Default::default() }, plan)),
+        Box::new(EventAutomaton::new("C07")),
+    ])
+}
+fn c07_adv(plan: &Plan) -> Option<Box<dyn Adversary>> {
+    if plan.adversary.is_empty() {
+        None
+    } else {
+        Some(Box::new(HandshakeForger::new(plan)))
+    }
+}
+
+pub fn c07() -> CheckDef {
+    CheckDef {
+        property: "C07",
+        families: vec![
+            Family { name: "b_handshake_faults", world: "B", weight: 3, gen: c07_gen_faulty, oracles: c07_oracles, adversary: Some(c07_adv), keep_workload: false, custom: None,
+                what: "1-6 clients arriving within 3 s, loss/dup/reorder aimed at SYN, SYN-ACK, ACK and error frames, forged handshake frames from spoofed client and server addresses with nonces that differ from the genuine ones, replays of genuine handshake frames up to 20 s later, incompatible configurations, wrong-version SYNs, client crash and restart on the same address, a few reliable packets per connection" },
+            Family { name: "b_handshake_clean", world: "B", weight: 1, gen: c07_gen_clean, oracles: c07_oracles, adversary: None, keep_workload: false, custom: None,
+                what: "same population on a loss-free link: incompatible configurations must be refused with the matching error, compatible ones must connect and agree on sequence numbers and limits" },
+        ],
+        panic_is_violation: no_panics,
+        hang_is_violation: false,
+        quick_runs: 1200,
+        thorough_runs: 30_000,
+        rule: "one case = one simulated run; distinct = distinct run digest; non-trivial = at least one Connect was checked against the nonces on the wire or one refusal was checked",
+        real_code: REAL_B,
+        stubs: STUB_B,
+        assumptions: vec![
+            "the harness reads every datagram on the wire, so it knows each side's genuine nonce; forged nonces are drawn to differ from the genuine one (an off-path attacker cannot know it)",
+            "wrong-version SYNs come from a raw socket (a real Client always sends the current version)",
+            "spoofed Disconnect frames are not injected: they carry no nonce by design and are outside the statement (handshake frames)",
+        ],
+    }
+}
+
+// ------------------------------------------------------------------------------------------ C08
+
+fn c08_gen(seed: u64, run: u64, thorough: bool) -> Plan {
+    world_b_lifecycle("C08", "b_lifecycle", seed, run, thorough)
+}
+fn c08_oracles(_plan: &Plan) -> Vec<Box<dyn Oracle>> {
+    with_states(vec![Box::new(EventAutomaton::new("C08"))])
+}
+
+pub fn c08() -> CheckDef {
+    CheckDef {
+        property: "C08",
+        families: vec![Family { name: "b_lifecycle", world: "B", weight: 1, gen: c08_gen, oracles: c08_oracles, adversary: None, keep_workload: false, custom: None,
+            what: "1-4 clients, random interleavings of send / disconnect / disconnect_now / Server::drop / step / flush on both endpoints, client crash and restart, loss and duplication aimed at handshake and disconnect frames, blackouts, active timeouts 1-20 s racing the disconnect retries, skewed clocks, stalls" }],
+        panic_is_violation: no_panics,
+        hang_is_violation: false,
+        quick_runs: 1500,
+        thorough_runs: 40_000,
+        rule: "one case = one simulated run; distinct = distinct run digest; non-trivial = at least one Connect event",
+        real_code: REAL_B,
+        stubs: STUB_B,
+        assumptions: vec!["Server::drop() by the application closes the stream silently, as documented", "with enable_handshake_errors the server reports failed handshakes of addresses that have no established connection; those are not terminal events of a connection"],
+    }
+}
+
+// ------------------------------------------------------------------------------------------ C17
+
+fn c17_gen_faulty(seed: u64, run: u64, thorough: bool) -> Plan {
+    world_b_limits("C17", "b_limits_faults", seed, run, thorough, false)
+}
+fn c17_gen_clean(seed: u64, run: u64, thorough: bool) -> Plan {
+    world_b_limits("C17", "b_limits_clean", seed, run, thorough, true)
+}
+fn c17_oracles(_plan: &Plan) -> Vec<Box<dyn Oracle>> {
+    with_states(vec![Box::new(LimitsOracle::new("C17"))])
+}
+
+pub fn c17() -> CheckDef {
+    CheckDef {
+        property: "C17",
+        families: vec![
+            Family { name: "b_limits_clean", world: "B", weight: 1, gen: c17_gen_clean, oracles: c17_oracles, adversary: None, keep_workload: false, custom: None,
+                what: "max_active 1..6 x max_total 1..12 swept by run index, 1-12 clients arriving in bursts (latency up to 300 ms so that many SYNs precede the first ACK), connections ending by disconnect from either side, drop, client crash; loss-free link: refused clients must see ServerFull, and a late client must be admitted once capacity has returned" },
+            Family { name: "b_limits_faults", world: "B", weight: 1, gen: c17_gen_faulty, oracles: c17_oracles, adversary: None, keep_workload: false, custom: None,
+                what: "same with loss/dup/reorder of handshake and disconnect frames: the two counters must hold at every step" },
+        ],
+        panic_is_violation: no_panics,
+        hang_is_violation: false,
+        quick_runs: 1200,
+        thorough_runs: 30_000,
+        rule: "one case = one simulated run; limit pair = f(run index); distinct = distinct run digest; non-trivial = at least 10 server probes and one connected client",
+        real_code: REAL_B,
+        stubs: STUB_B,
+        assumptions: vec!["established = between the server's Connect event and its terminal event or drop(); tracked = entries in the server's client table (probe)"],
+    }
+}
+
+// ------------------------------------------------------------------------------------------ C18
+
+fn c18_gen(seed: u64, run: u64, thorough: bool) -> Plan {
+    world_b_spoof("C18", "b_spoof", seed, run, thorough)
+}
+fn c18_oracles(_plan: &Plan) -> Vec<Box<dyn Oracle>> {
+    with_states(vec![Box::new(AmplificationOracle::new("C18"))])
+}
+
+pub fn c18() -> CheckDef {
+    CheckDef {
+        property: "C18",
+        families: vec![Family { name: "b_spoof", world: "B", weight: 1, gen: c18_gen, oracles: c18_oracles, adversary: None, keep_workload: false, custom: None,
+            what: "1-5 spoofable addresses that never return a nonce: valid 1472-byte SYNs (repeated, same or fresh nonce), undersized CRC-valid SYNs (length swept over 5..1471 across runs), wrong-version, configuration-refused and capacity-refused SYNs, stray frames of every other type, gaps up to 25 s (beyond the handshake timeout); servers with and without free capacity; bytes per address counted with and without the 28-byte UDP/IP header" }],
+        panic_is_violation: no_panics,
+        hang_is_violation: false,
+        quick_runs: 2000,
+        thorough_runs: 60_000,
+        rule: "one case = one simulated run; distinct = distinct run digest; non-trivial = at least one datagram from an unverified address reached the server",
+        real_code: REAL_B,
+        stubs: STUB_B,
+        assumptions: vec!["bytes received = datagrams placed in the server's socket buffer; bytes sent = datagrams the server handed to its socket for that address"],
+    }
+}
+
 // ------------------------------------------------------------------------------------------ C11
 
 fn c11_plan(scenario: &str, seed: u64, run: u64, thorough: bool, rate_recovery: bool) -> Plan {
@@ -1169,7 +1320,7 @@ pub fn c20() -> CheckDef {
 }
 
 pub fn all() -> Vec<CheckDef> {
-    vec![c01(), c02(), c03(), c04(), c05(), c06(), c11(), c12(), c13(), c14(), c15(), c19(), c20()]
+    vec![c01(), c02(), c03(), c04(), c05(), c06(), c07(), c08(), c11(), c12(), c13(), c14(), c15(), c17(), c18(), c19(), c20()]
 }
 
 pub fn by_id(id: &str) -> Option<CheckDef> {
